@@ -244,7 +244,9 @@ def r3(cx):
     cx.require(len(rec) == 2, 'expected two recursive parse_tree calls (then / else branch)')
     a_then, a_else = H.peel(rec[0]['a'][1]), H.peel(rec[1]['a'][1])
     cx.site('parse_tree: then-branch at %s, else-branch at %s' % (H.lit_value(a_then), a_else.get('name')))
-    if H.lit_value(a_then) != 1:
+    ptab, _m = H.fn_match_table(F, _fn(F, '<impl yash_arith::token::Operator>::precedence'), OP)
+    lowest = min(H.lit_value(ptab[x][1]) for c in C_CLASSES for x in c if x in ptab)
+    if H.lit_value(a_then) != lowest:
         cx.violation('yash_arith::ast::parse_tree', 'then-precedence', 'the middle operand of ?: is a full expression (lowest precedence)',
                      loc='%s:%s' % (pt['file'], rec[0]['line']))
     if a_else.get('name') != 'precedence':
